@@ -385,6 +385,27 @@ class Check:
             pass
         return rc
 
+    def anchor_drift(self) -> list[str]:
+        """Files anchoring this property (properties.jsonl) whose content differs from the version the model was last
+        reviewed against (tools/anchor_hashes.json). Informational: recorded in the evidence, never a verdict."""
+        try:
+            base = json.loads((ROOT / "tools" / "anchor_hashes.json").read_text())
+            files = []
+            for l in (ROOT / "properties.jsonl").read_text().splitlines():
+                if l.strip():
+                    d = json.loads(l)
+                    if d["id"] == self.prop:
+                        files = d["anchors"]["files"]
+            changed = []
+            for f in files:
+                fp = REPO / f
+                h = hashlib.sha256(fp.read_bytes()).hexdigest()[:16] if fp.exists() else "missing"
+                if base.get(f) != h:
+                    changed.append(f)
+            return changed
+        except Exception as e:  # noqa
+            return [f"(anchor hashes unavailable: {type(e).__name__})"]
+
     def _write_evidence(self, violations: int):
         n_thm = len(self.theorems)
         obligations = n_thm + 2  # theorems + axiom/sorry audit + correspondence
@@ -416,6 +437,7 @@ class Check:
             "known_findings_reproduced": sorted(self.known_hits),
             "input_distribution": self.hist,
             "exhaustive": self.exhaustive,
+            "anchored_files_changed_since_model_review": self.anchor_drift(),
             "notes": self.notes[:40],
         }
         cov.update(self.extra_cov)
